@@ -396,7 +396,7 @@ def scenarios(tier="quick"):
 
 # ------------------------------------------------------------------------------------------------ C14: spherical / index groups, several points
 SPH_IDX_PROTO = [("SphericalRange", ("Double",)), ("SphericalAzimuth", ("Single",)), ("SphericalElevation", ("ScaledInteger", -90000, 90000, 0.001, 0.0)),
-                 ("RowIndex", ("Integer", 0, 1000)), ("ColumnIndex", ("Integer", -5, 70000)), ("ReturnIndex", ("Integer", 0, 3)), ("ReturnCount", ("Integer", 0, 3))]
+                 ("RowIndex", ("Integer", 0, 1000)), ("ColumnIndex", ("Integer", -(1 << 62), (1 << 62))), ("ReturnIndex", ("Integer", 0, 3)), ("ReturnCount", ("Integer", 0, 3))]
 SPH_ROW_PROTO = [("SphericalRange", ("Double",)), ("SphericalAzimuth", ("Single",)), ("SphericalElevation", ("ScaledInteger", -90000, 90000, 0.001, 0.0)), ("RowIndex", ("Integer", -7, 1000))]
 XYZ_DOUBLE_PROTO = [("CartesianX", ("Double",)), ("CartesianY", ("Double",)), ("CartesianZ", ("Double",))]
 XYZ_SCALED_PROTO = [("CartesianX", ("ScaledInteger", -1000, 1000, 0.25, -3.0)), ("CartesianY", ("Single",)), ("CartesianZ", ("Double",))]
